@@ -118,6 +118,10 @@ class Script:
 
 
 # ------------------------------------------------------------------------------------------ recorder
+class Bystander:
+    """a listener without any callback (attached from inside callbacks when the spec says so)"""
+
+
 class H:
     """Per-instance recorder / script holder, reachable from machine, model and listeners (so a deep copy of
     the machine gets its own copy and logs there)."""
@@ -140,6 +144,8 @@ class H:
             self.yields[cid] = c.get("yields", 0)
         self.depth = False
         self.no_sender_yields = False
+        # a callback attaches one more (callback-less) listener to its machine right before each nested send
+        self.attach_before_send = bool(spec.get("attach_in_callbacks"))
         self.guard_yields = {cbid_of(g): g.get("yields", 0) for g in spec.get("guards", [])}
         self.attr_guards = {cbid_of(g) for g in spec.get("guards", []) if g.get("kind") == "attr"}
 
@@ -219,6 +225,8 @@ def _make_action(cbid0, group, is_async, free):
             for i, (ev, a, kw) in enumerate(script):
                 Hh.log.append(("S", cbid, occ, i))
                 try:
+                    if Hh.attach_before_send:
+                        machine.add_listener(Bystander())
                     r = machine.send(ev, *a, **kw)
                     if isawaitable(r):
                         r = await r
@@ -245,6 +253,8 @@ def _make_action(cbid0, group, is_async, free):
             for i, (ev, a, kw) in enumerate(Hh.sends[cbid].get(occ, ())):
                 Hh.log.append(("S", cbid, occ, i))
                 try:
+                    if Hh.attach_before_send:
+                        machine.add_listener(Bystander())
                     r = machine.send(ev, *a, **kw)
                 except Exception as e:
                     Hh.log.append(("R", cbid, occ, i, "exc", type(e).__name__))
